@@ -25,6 +25,7 @@ import (
 	_ "verifengine/props/c17"
 	_ "verifengine/props/c18"
 	_ "verifengine/props/c19"
+	_ "verifengine/props/c20"
 )
 
 func main() { vf.Main() }
